@@ -416,6 +416,10 @@ func execFl(o *Out, id, line string) {
 				o.Violate("C10", fmt.Sprintf("flate through source %s with nothing after the stream: err=%v equal=%v", src, e, bytes.Equal(got, sout)), "source-shape-at-end", line)
 				break
 			}
+			if zr.InputOffset != int64(L) || zr.OutputOffset != int64(len(sout)) {
+				o.Violate("C11", fmt.Sprintf("flate through source %s with nothing after the stream: stream of %d bytes, InputOffset=%d; %d bytes out, OutputOffset=%d", src, L, zr.InputOffset, len(sout), zr.OutputOffset), "counters-at-end", line)
+				break
+			}
 		}
 	}
 	zout, zerr := zlibInflateAll(in)
@@ -494,6 +498,38 @@ func genFl(r *Rand, tier string, emit func(string)) {
 		e(s)
 		if r.Intn(4) == 0 {
 			valid = append(valid, s)
+		}
+	}
+	// stored blocks that bring the output exactly to (or one byte around) the sizes at which the
+	// decoder's history buffer is full, followed by a Huffman block that starts with a literal,
+	// a match, or ends at once
+	for _, total := range []int{4096, 8192, 16384, 32768, 65536, 98304} {
+		for _, delta := range []int{-1, 0, 1} {
+			for _, next := range []int{0, 1, 2} {
+				n := total + delta
+				d := r.Bytes(n)
+				var s []byte
+				for len(d) > 0 {
+					k := min(len(d), 20000+r.Intn(40000))
+					s = append(s, 0, byte(k), byte(k>>8), ^byte(k), ^byte(k>>8))
+					s = append(s, d[:k]...)
+					d = d[k:]
+				}
+				w := &bitW{}
+				w.bit(1)     // BFINAL
+				w.bits(1, 2) // fixed Huffman codes
+				switch next {
+				case 0:
+					w.code(0x30+'A', 8) // literal
+				case 1:
+					w.code(1, 7)    // length 3
+					w.code(0, 5)    // distance 1
+					w.code(0x30, 8) // literal 0
+				}
+				w.code(0, 7) // end of block
+				w.align()
+				e(append(s, w.buf...))
+			}
 		}
 	}
 	// mutations and truncations
